@@ -1,14 +1,15 @@
-import YaclibModel.Proofs.CoSharedMutex
+import YaclibModel.Proofs.CoSharedMutexS_wUnlock_1
+import YaclibModel.Proofs.CoSharedMutexS_wUnlock_2
+import YaclibModel.Proofs.CoSharedMutexS_wUnlock_3
 namespace Yaclib.CoSharedMutex
 
-set_option maxHeartbeats 4000000 in
 theorem inv_wUnlock {cfg : Cfg} {s : State} (hi : Inv cfg s) (c : Cid) (k : WUnl) (h : s.pc c = .wUnl k) (hs : s.spin = .held c) :
     Inv cfg ((doWUnlock s c k)) := by
-  cases hi
-  cases k
-  · simp only [doWUnlock]; sm_auto [List.count_le_length]
+  have hkd : k = .acq ∨ k = .enq := by cases k <;> simp
+  rcases hkd with hk | hk
+  · exact inv_wUnlock_1 hi c k h hs hk
   · by_cases hc : (s.cfg.fifo = true ∧ s.Q = [])
-    · simp only [doWUnlock, hc, and_self, ↓reduceIte]; sm_auto [List.count_le_length]
-    · simp only [doWUnlock, hc, ↓reduceIte]; sm_auto [List.count_le_length]
+    · exact inv_wUnlock_2 hi c k h hs hk hc
+    · exact inv_wUnlock_3 hi c k h hs hk hc
 
 end Yaclib.CoSharedMutex
